@@ -32,6 +32,16 @@ TTYPE = "state * list (tqry * tans)"
 
 
 def gen_trav_case(rng, search=False):
+    case = _gen_trav_case(rng, search)
+    if rng.random() < 0.5:
+        case["ops2"] = gen_phase2(rng, case, case.pop("_uid"), case.pop("_vids"), case.pop("_lids"))
+    else:
+        for k in ("_uid", "_vids", "_lids"):
+            case.pop(k)
+    return case
+
+
+def _gen_trav_case(rng, search=False):
     ops, vids, lids, uid = Q.gen_graph_ops(rng, nv=rng.randint(1, 6), nl=rng.randint(0, 9), odd=rng.choice([0.0, 0.0, 0.15]))
     queries = []
     starts = [rng.choice(vids) for _ in range(2)]
@@ -43,7 +53,7 @@ def gen_trav_case(rng, search=False):
                 attr = rng.choice(["k", "k", "k", "other"])
                 for t in ("BFS", "DSR", "DSI"):
                     queries.append([t, uni, st, attr, val])
-        return {"ops": ops, "queries": queries, "attrs": attrs, "falsy": rng.random() < 0.5}
+        return {"ops": ops, "queries": queries, "attrs": attrs, "falsy": rng.random() < 0.5, "_uid": uid, "_vids": vids, "_lids": lids}
     for st in starts:
         for uni in ([uid, None] if uid is not None else [None]):
             d, u = rng.choice(Q.DIRS), rng.choice(Q.UNKS + ["UNb", "UNon"])
@@ -51,7 +61,7 @@ def gen_trav_case(rng, search=False):
             for fr in (None, rng.choice([0, 1, 2])):
                 for t in ("BFT", "DFR", "DFI"):
                     queries.append([t, uni, st, d, u, fv, fr])
-    return {"ops": ops, "queries": queries}
+    return {"ops": ops, "queries": queries, "_uid": uid, "_vids": vids, "_lids": lids}
 
 
 def match_list(w, attr, val):
@@ -66,11 +76,28 @@ def match_list(w, attr, val):
 
 
 def observe_trav(case):
-    """build, snapshot, run every query; for traversals also the generator form and a repeat call;
-    for searches also the matching predicate per object"""
+    """one or two phases: build, snapshot, run every query (then mutate the same live graph and ask again)"""
     w = H.World()
     try:
-        ops = case["ops"]
+        first = _observe_phase(w, case, case["ops"])
+        if first is None:
+            return None
+        if case.get("ops2"):
+            second = _observe_phase(w, case, case["ops2"])
+            if second is None:
+                return None
+            first["phase2"] = second
+        return first
+    except H.CaseInvalid:
+        return None
+    finally:
+        w.close()
+
+
+def _observe_phase(w, case, ops):
+    """run ops on the live world, snapshot, run every query; for traversals also the generator form and a
+    repeat call; for searches also the matching predicate per object"""
+    try:
         if case.get("falsy"):
             ops = [(["NV", 2, op[2], op[3]] if op[0] == "NV" else op) for op in ops]
         for op in ops:
@@ -103,14 +130,34 @@ def observe_trav(case):
         return {"snap": snap, "answers": answers, "extra": extra, "unchanged": snap == snap_after}
     except H.CaseInvalid:
         return None
-    finally:
-        w.close()
+
+
+def gen_phase2(rng, case, uid, vids, lids):
+    """mutations applied to the SAME live graph between two rounds of the same queries: swap universe members keeping
+    the count, re-point edge ends, add / remove links"""
+    ops2 = []
+    if uid is not None:
+        members = list(case["ops"][-1][1])
+        outside = [v for v in vids if v not in members]
+        if members and outside and rng.random() < 0.8:
+            ops2 += [["URV", uid, rng.choice(members)], ["UAV", uid, rng.choice(outside)]]
+        elif members and rng.random() < 0.5:
+            ops2 += [["URV", uid, rng.choice(members)]]
+    for _ in range(rng.randint(0, 2)):
+        r = rng.random()
+        if r < 0.4 and lids:
+            ops2.append([rng.choice(["SV1", "SV2"]), rng.choice(lids), rng.choice(vids)])
+        elif r < 0.8:
+            ops2.append(["LFT", rng.choice(vids), rng.choice(["KDir", "KUnd"]), rng.choice(vids), False])
+        elif len(vids) >= 2:
+            ops2.append(["UNL", rng.choice(vids), rng.choice(vids), True])
+    return ops2
 
 
 class TravLeg(Leg):
     imports = TIMPORTS
-    checkfn = "tcheck"
-    case_type = TTYPE
+    checkfn = "tcheck_phases"
+    case_type = "list (" + TTYPE + ")"
     shard = 30
     search = False
 
@@ -124,13 +171,28 @@ class TravLeg(Leg):
     def term(self, case, obs):
         if obs is None:
             return None
-        qs = []
-        for q, a, x in zip(case["queries"], obs["answers"], obs["extra"]):
-            qs.append(f"({c_tq(q, x.get('m'))}, {c_tans(a)})")
-        return "(" + H.c_state(obs["snap"]) + ", " + C.clist(qs, str) + ")"
+        parts = []
+        for ph in [obs] + ([obs["phase2"]] if "phase2" in obs else []):
+            qs = []
+            for q, a, x in zip(case["queries"], ph["answers"], ph["extra"]):
+                qs.append(f"({c_tq(q, x.get('m'))}, {c_tans(a)})")
+            parts.append("(" + H.c_state(ph["snap"]) + ", " + C.clist(qs, str) + ")")
+        return C.clist(parts, str)
 
     def model_value(self, case, obs):
-        return "tanswers " + self.term(case, obs)
+        return "tanswers_phases " + self.term(case, obs)
+
+    def phase_oracle(self, case, obs):
+        """judge one phase (subclasses)"""
+        return []
+
+    def oracle(self, case, obs):
+        if obs is None:
+            return []
+        m = self.phase_oracle(case, obs)
+        if not m and "phase2" in obs:
+            m = ["after the graph was mutated (" + str(case["ops2"]) + "): " + x for x in self.phase_oracle(case, obs["phase2"])]
+        return m
 
     def shrink_candidates(self, case):
         qs = case["queries"]
@@ -139,13 +201,23 @@ class TravLeg(Leg):
                 c = dict(case)
                 c["queries"] = [qs[i]]
                 yield c
-        for c in H.shrink_ops(case["ops"]):
+        if case.get("ops2"):
             d = dict(case)
-            d["ops"] = c
-            if "attrs" in d:
-                d = dict(d)
-                d["attrs"] = {}
+            d.pop("ops2")
             yield d
+            for i in range(len(case["ops2"])):
+                d = dict(case)
+                d["ops2"] = case["ops2"][:i] + case["ops2"][i + 1:]
+                if d["ops2"]:
+                    yield d
+        else:
+            for c in H.shrink_ops(case["ops"]):
+                d = dict(case)
+                d["ops"] = c
+                if "attrs" in d:
+                    d = dict(d)
+                    d["attrs"] = {}
+                yield d
 
     def stats(self, case, obs, acc):
         if obs is None:
